@@ -424,10 +424,14 @@ tx_outs:\n{tx_outs}
         # add the HashPrevouts and HashSequence
         if hash_type & SIGHASH_ANYONECANPAY != SIGHASH_ANYONECANPAY:
             s += self.hash_prevouts()
+        else:
+            s += b"\x00" * 32
         if hash_type & SIGHASH_ANYONECANPAY != SIGHASH_ANYONECANPAY and (
             hash_type & 3
         ) not in (SIGHASH_SINGLE, SIGHASH_NONE):
             s += self.hash_sequence()
+        else:
+            s += b"\x00" * 32
         # add the previous transaction hash in little endian
         s += tx_in.prev_tx[::-1]
         # add the previous transaction index in 4 bytes, little endian
@@ -458,8 +462,10 @@ tx_outs:\n{tx_outs}
         # add the HashOutputs
         if (hash_type & 3) not in (SIGHASH_SINGLE, SIGHASH_NONE):
             s += self.hash_outputs()
-        elif hash_type & SIGHASH_SINGLE == SIGHASH_SINGLE:
-            s += self.tx_outs[input_index].serialize()
+        elif hash_type & 3 == SIGHASH_SINGLE and input_index < len(self.tx_outs):
+            s += hash256(self.tx_outs[input_index].serialize())
+        else:
+            s += b"\x00" * 32
         # add the locktime in 4 bytes, little endian
         s += self.locktime.serialize()
         # add the sighash (SIGHASH_ALL) in 4 bytes, little endian
